@@ -288,7 +288,7 @@ def run_lines(binary, lines, env=None, timeout=3600, cwd=None):
         out.pop()
     if p.returncode != 0 or len(out) < len(lines):
         idx = min(len(out), len(lines) - 1)
-        raise Crash(idx, lines[idx], p.stderr[-6000:], p.returncode)
+        raise Crash(idx, lines[idx], p.stderr[:3000], p.returncode)
     return out
 
 
